@@ -12,7 +12,7 @@ from pvmon.refs import cbca as ref
 LEVEL = "exploration"
 RULE = (
     "monoband stereo pairs 5x7..26x40 (steps/edges, patches, gradients, random, low texture), masks and nodata on "
-    "either side, SAD / census (exact sums) and ZNCC (tolerance), windows 1/3/5, subpix 1/2/4, cbca_distance 1-8, "
+    "either side, SAD / census (exact sums) and ZNCC (tolerance), windows 1/3/5, subpix 1/2/4, cbca_distance 1-8 (9-17 on smooth scenes: regions of more than 256 pixels), "
     "cbca_intensity 1-200; cost volumes captured before/after the aggregation step (left, and right with a validation "
     "step); plane-independence relation on a volume with one plane removed. distinct = (measure, window, subpix, "
     "distance, intensity, masks, shape, texture); non-trivial = volume with NaN costs and arms limited by at least "
@@ -24,7 +24,7 @@ ASSUMPTIONS = [
 ]
 GATES = {
     "arm_limited_by_distance": 1, "arm_limited_by_intensity": 1, "arm_limited_by_mask": 1, "arm_limited_by_image_side": 1,
-    "region_touching_nan_cost": 1, "fractional_disparity_with_masked_right_neighbour": 1, "right_volume_checked": 2,
+    "region_touching_nan_cost": 1, "support_region_of_256_pixels_or_more": 1, "fractional_disparity_with_masked_right_neighbour": 1, "right_volume_checked": 2,
     "plane_independence_checked": 3, "costs_compared": 20000,
 }
 
@@ -60,6 +60,13 @@ def run_case(case, ctx):
     l, r = gen.stereo_pair(rng, rows, cols, tex, max_shift=2, noise=int(rng.choice([0, 2, 8])))
     dist = int(rng.integers(1, 9))
     inten = float(rng.choice([1.0, 5.0, 30.0, 200.0]))
+    large = case["i"] == 1
+    if large:
+        # directed constructor: support regions of several hundred pixels (long arms on a smooth scene)
+        w = 3 if method == "census" else int(rng.choice([1, 3]))
+        rows, cols = int(rng.integers(24, 31)), int(rng.integers(30, 39))
+        l, r = gen.stereo_pair(rng, rows, cols, "lowtex", max_shift=2, noise=0)
+        dist, inten = int(rng.choice([9, 12, 17])), 200.0
     kinds = ["none", "sparse", "stripes", "fullrow", "fullcol", "border", "exotic", "dense"]
     lmk = kinds[int(rng.integers(0, len(kinds)))] if (rng.random() < 0.6 and dist > 1) else "none"
     rmk = kinds[int(rng.integers(0, len(kinds)))] if (rng.random() < 0.6 and dist > 1) else "none"
@@ -127,6 +134,8 @@ def run_case(case, ctx):
         # situation classes (left arms of the reference)
         if side == "left":
             h, w_ = la.shape[:2]
+            ctx.gate("support_region_of_256_pixels_or_more",
+                     int(((la[:, :, 0] + la[:, :, 1] + 1) * (la[:, :, 2] + la[:, :, 3] + 1)).max() >= 256))
             ctx.gate("arm_limited_by_distance", int((la == dist - 1).any() and dist > 1))
             ctx.gate("arm_limited_by_image_side", int((la[:, 0, 0] == 0).any()))
             ctx.gate("arm_limited_by_mask", int(lmk != "none" and (la[:, :, :2] < dist - 1).any()))
